@@ -551,7 +551,11 @@ def c11(work, tier, seed):
     cf = "hash,morlock,qshash,qsmat"
     if tier == "quick":
         jobs = [("c11a%d" % i, ["-mode", "c11", "-seed", seed * 100 + i, "-n", 12, "-depth", 3, "-cfgs", cf, "-limit", 30000]) for i in range(8)]
+        # many more roots under the fine-grained position-determined evaluation, where a wrong entry changes values
+        jobs += [("c11h%d" % i, ["-mode", "c11", "-seed", seed * 100 + 20 + i, "-n", 40, "-depth", 3, "-cfgs", "hash", "-limit", 30000]) for i in range(8)]
         jobs += [("c11m%d" % i, ["-mode", "c11", "-mates", "-seed", seed * 100 + 50 + i, "-n", 6, "-depth", 4, "-cfgs", "hash,morlock", "-limit", 40000]) for i in range(4)]
+        # small endgames at depth 4, many of them: where fail-low nodes with a table move are re-searched deeper
+        jobs += [("c11e%d" % i, ["-mode", "c11", "-mates", "-seed", seed * 100 + 60 + i, "-n", 30, "-depth", 4, "-cfgs", "hash", "-limit", 60000]) for i in range(8)]
     else:
         jobs = [("c11a%d" % i, ["-mode", "c11", "-heavy", "-seed", seed * 100 + i, "-n", 150, "-depth", 3, "-cfgs", cf, "-limit", 60000]) for i in range(12)]
         jobs += [("c11m%d" % i, ["-mode", "c11", "-mates", "-seed", seed * 100 + 50 + i, "-n", 50, "-depth", 5, "-cfgs", "hash,morlock,qshash", "-limit", 150000]) for i in range(12)]
